@@ -51,6 +51,7 @@ type Monitor struct {
 	Waitcond   *CExpr
 	Guarantees []Clause
 	Name       string
+	WaitCalls  []string            // interface methods on the lock object that release and re-acquire the monitor
 	Owns       map[string][]string // protected pointer field -> fields of the pointee that are protected with it
 	OwnsOrder  []string
 }
@@ -69,7 +70,8 @@ type EventDecl struct {
 	Pkg    string
 	Name   string
 	Callee string // full name pattern of the callee (function or interface method)
-	When   *CExpr // optional predicate over a0..an (call arguments; a0 = receiver for methods)
+	When   *CExpr // optional predicate over a0..an (call arguments; a0 = receiver for methods) and, for ret events, r0..rn
+	Ret    bool   // emitted after the call returned (results visible)
 }
 
 type TypeInv struct {
@@ -250,11 +252,15 @@ func (db *ContractDB) LoadFile(path, pkgPath string, assumed bool) error {
 				curSpec = sf
 			case "event":
 				// event Name = call <callee> [when expr]
-				m := regexp.MustCompile(`^(\w+)\s*=\s*call\s+(\S+)(?:\s+when\s+(.*))?$`).FindStringSubmatch(rest)
+				m := regexp.MustCompile(`^(\w+)\s*=\s*(call|ret)\s+(\S+)(?:\s+when\s+(.*))?$`).FindStringSubmatch(rest)
 				if m == nil {
-					return errf(l, "event <Name> = call <callee> [when <expr>]")
+					return errf(l, "event <Name> = call|ret <callee> [when <expr>]")
 				}
-				ev := &EventDecl{Pkg: pkgPath, Name: m[1], Callee: m[2]}
+				if _, dup := db.Events[m[1]]; dup {
+					return errf(l, "duplicate event %s", m[1])
+				}
+				ev := &EventDecl{Pkg: pkgPath, Name: m[1], Callee: m[3], Ret: m[2] == "ret"}
+				m[3] = m[4]
 				if m[3] != "" {
 					e, err := ParseCExpr(m[3])
 					if err != nil {
@@ -353,6 +359,8 @@ func (db *ContractDB) LoadFile(path, pkgPath string, assumed bool) error {
 				}
 			case "protects":
 				curMon.Protects = append(curMon.Protects, strings.Fields(strings.ReplaceAll(rest, ",", " "))...)
+			case "waitcall":
+				curMon.WaitCalls = append(curMon.WaitCalls, strings.Fields(strings.ReplaceAll(rest, ",", " "))...)
 			case "owns":
 				i := strings.Index(rest, ":")
 				if i < 0 {
